@@ -41,7 +41,8 @@ enum {
     K_EXPRKEY_SKIPPED_DERIV,
     K_DISTINCT_RESULTS_VALUE_CHECKED,
     K_NESTED_TOL,
-    K_POLE_SKIP
+    K_POLE_SKIP,
+    K_PT_SKIP_ILLCOND
 };
 static const std::vector<std::string> CN = {"(state,map)_cases",
                                             "substitution_calls",
@@ -57,7 +58,8 @@ static const std::vector<std::string> CN = {"(state,map)_cases",
                                             "expression-key_cases_skipped_on_Derivative/Subs_states",
                                             "distinct_results_value_checked",
                                             "points_compared_with_nested_stencil_tolerance",
-                                            "points_skipped_pole-producing_map_expected_nonfinite"};
+                                            "points_skipped_pole-producing_map_expected_nonfinite",
+                                            "points_skipped_ill-conditioned(input at a branch point/pole after substitution)"};
 
 static const std::set<TypeID> DERIVSUBS = {SYMENGINE_DERIVATIVE, SYMENGINE_SUBS};
 
@@ -68,6 +70,19 @@ struct FnDef {
     bool deriv_ok;
 };
 static std::vector<FnDef> FNS;
+
+// Sensitivity of the expected value to a 2^-90 relative perturbation of every symbol value: near branch points
+// (asin(1), sqrt(0)) and poles the 113-bit evaluation of the *input* is itself inaccurate; such points are skipped.
+static rq sensitivity(const Basic &e, const Env &env, cq v0)
+{
+    Env p = env;
+    for (auto &kv : p.sym)
+        kv.second = kv.second * mkc(1 + 0x1p-90Q, 0) + mkc(0x1p-90Q, 0x1p-91Q);
+    Value v = refeval(e, p);
+    if (!v.ok)
+        return 1e300Q;
+    return absq(v.v - v0);
+}
 
 // value judgement of result r of substituting map M in e: 1 ok, 0 bad (msg), -1 nothing judged
 static int judge(const Basic &e, const Basic &r, const MapDef &M, std::string &msg, Ctx *c)
@@ -109,6 +124,10 @@ static int judge(const Basic &e, const Basic &r, const MapDef &M, std::string &m
             else if (cr.why == "lhs:nonfinite-leaf") {
                 // the library returned zoo/nan/oo although the substituted expression has a finite value here
                 Value rv = refeval(e, rhs_env);
+                if (rv.ok && sensitivity(e, rhs_env, rv.v) > 1e-12Q * absq(rv.v)) {
+                    cnt(K_PT_SKIP_ILLCOND); // numerically finite only by rounding: a pole of the input
+                    continue;
+                }
                 if (rv.ok) {
                     msg = "at grid point " + std::to_string(g) + " the input evaluates (after substitution) to " + cstr(rv.v)
                           + " but the result contains zoo/nan";
@@ -119,13 +138,19 @@ static int judge(const Basic &e, const Basic &r, const MapDef &M, std::string &m
                 cnt(K_PT_SKIP_LHS);
             continue;
         }
-        if (nested)
-            cnt(K_NESTED_TOL);
-        cnt(K_POINTS);
         if (cr.res == 0) {
+            Value rv = refeval(e, rhs_env);
+            rq sc = fmaxq(rv.scale, absq(rv.v));
+            if (rv.ok && 64 * sensitivity(e, rhs_env, rv.v) >= cr.relerr * sc) {
+                cnt(K_PT_SKIP_ILLCOND);
+                continue;
+            }
             msg = "at grid point " + std::to_string(g) + " result vs expected: " + cr.why + " (relative error " + qstr(cr.relerr, 6) + ")";
             return 0;
         }
+        if (nested)
+            cnt(K_NESTED_TOL);
+        cnt(K_POINTS);
         judged++;
     }
     return judged ? 1 : -1;
